@@ -123,30 +123,35 @@ end Invariant
 section PCG
 variable {K : Type} [CommRing K] [Div K] [LT K] [DecidableLT K]
 
-/-- the scaled tolerance `pcg` tests against -/
-def pcgTol (sqrtB : K) (bigB : Bool) (tol : K) : K := if bigB then tol * sqrtB else tol
+/-- the threshold `pcg` tests `⟨r, M⁻¹ r⟩` against: the square of the scaled tolerance (`‖r‖_M < tol·‖b‖_M`) -/
+def pcgTol (sqrtB : K) (bigB : Bool) (tol : K) : K :=
+  (if bigB then tol * sqrtB else tol) * (if bigB then tol * sqrtB else tol)
 
-/-- the entry state of the loop -/
-def init (resid prec : List K → List K) (b x0 : List K) : St K :=
+/-- the scaling of the report: `⟨b, M⁻¹ b⟩`, or 1 for a zero right-hand side -/
+def pcgScale (prec : List K → List K) (b : List K) (bigB : Bool) : K := if bigB then dot b (prec b) else 1
+
+/-- the entry state of the loop; it is already an exit state when the start meets the tolerance -/
+def init (resid prec : List K → List K) (b : List K) (sqrtB : K) (bigB : Bool) (tol : K) (x0 : List K) : St K :=
   { x := x0, r := resid x0, p := prec (resid x0), rz := dot (resid x0) (prec (resid x0)),
-    res := [dot (resid x0) (prec (resid x0)) / dot b (prec b)], iter := 0 }
+    res := [dot (resid x0) (prec (resid x0)) / pcgScale prec b bigB], iter := 0,
+    stopped := !(pcgTol sqrtB bigB tol < dot (resid x0) (prec (resid x0))) }
 
 /-- the preconditioned residual norm (squared) of `x`, in the scaling of the report:
-    `⟨b − A x, M⁻¹ (b − A x)⟩ / ⟨b, M⁻¹ b⟩` -/
-def trueRho (resid prec : List K → List K) (b x : List K) : K :=
-  dot (resid x) (prec (resid x)) / dot b (prec b)
+    `⟨b − A x, M⁻¹ (b − A x)⟩ / ⟨b, M⁻¹ b⟩` (absolute for `b = 0`) -/
+def trueRho (resid prec : List K → List K) (b : List K) (bigB : Bool) (x : List K) : K :=
+  dot (resid x) (prec (resid x)) / pcgScale prec b bigB
 
 variable (mv resid prec : List K → List K) (b : List K) (sqrtB : K) (bigB : Bool) (tol : K)
   (rc maxIter : Nat) (x0 : List K)
 
 theorem pcg_eq :
     pcg mv resid prec b sqrtB bigB tol rc maxIter x0 =
-      loop mv resid prec (dot b (prec b)) (pcgTol sqrtB bigB tol) rc maxIter maxIter
-        (init resid prec b x0) := rfl
+      loop mv resid prec (pcgScale prec b bigB) (pcgTol sqrtB bigB tol) rc maxIter maxIter
+        (init resid prec b sqrtB bigB tol x0) := rfl
 
 /-- the state after `k` trips: `loop` re-run with fuel `k` (same limit, same everything) -/
 def stateAt (k : Nat) : St K :=
-  loop mv resid prec (dot b (prec b)) (pcgTol sqrtB bigB tol) rc maxIter k (init resid prec b x0)
+  loop mv resid prec (pcgScale prec b bigB) (pcgTol sqrtB bigB tol) rc maxIter k (init resid prec b sqrtB bigB tol x0)
 
 /-- the `k`-th iterate -/
 def xAt (k : Nat) : List K := (stateAt mv resid prec b sqrtB bigB tol rc maxIter x0 k).x
@@ -161,13 +166,13 @@ local notation "ST" => stateAt mv resid prec b sqrtB bigB tol rc maxIter x0
 local notation "XAT" => xAt mv resid prec b sqrtB bigB tol rc maxIter x0
 local notation "TOL" => pcgTol sqrtB bigB tol
 
-theorem stateAt_zero : ST 0 = init resid prec b x0 := rfl
+theorem stateAt_zero : ST 0 = init resid prec b sqrtB bigB tol x0 := rfl
 theorem xAt_zero : XAT 0 = x0 := rfl
 theorem stateAt_maxIter : ST maxIter = OUT := rfl
 
 /-- fuel composes: the state after `k + m` trips is `m` trips from the state after `k` -/
 theorem stateAt_add (k m : Nat) :
-    ST (k + m) = loop mv resid prec (dot b (prec b)) TOL rc maxIter m (ST k) :=
+    ST (k + m) = loop mv resid prec (pcgScale prec b bigB) TOL rc maxIter m (ST k) :=
   loop_add _ _ _ _ _ _ _ k m _
 
 /-- **`pcg_iter_le`** -/
@@ -175,21 +180,21 @@ theorem pcg_iter_le : (OUT).iter ≤ maxIter := by
   rw [pcg_eq]; exact loop_iter_le_max _ _ _ _ _ _ _ _ _ (Nat.zero_le _)
 
 theorem stateAt_iter_le (k : Nat) : (ST k).iter ≤ k := by
-  have := loop_iter_le_fuel mv resid prec (dot b (prec b)) TOL rc maxIter k (init resid prec b x0)
-  rw [show (init resid prec b x0).iter = 0 from rfl, Nat.zero_add] at this
+  have := loop_iter_le_fuel mv resid prec (pcgScale prec b bigB) TOL rc maxIter k (init resid prec b sqrtB bigB tol x0)
+  rw [show (init resid prec b sqrtB bigB tol x0).iter = 0 from rfl, Nat.zero_add] at this
   exact this
 
 /-- one more trip from a state that has not exited is one `step` -/
 theorem stateAt_succ_of_not_halted (k : Nat) (h : halted maxIter (ST k) = false) :
-    ST (k + 1) = step mv resid prec (dot b (prec b)) TOL rc (ST k) := by
+    ST (k + 1) = step mv resid prec (pcgScale prec b bigB) TOL rc (ST k) := by
   have e : ST (k + 1) = if halted maxIter (ST k) then ST k
-      else step mv resid prec (dot b (prec b)) TOL rc (ST k) := loop_succ_right ..
+      else step mv resid prec (pcgScale prec b bigB) TOL rc (ST k) := loop_succ_right ..
   rw [e, h]; rfl
 
 theorem stateAt_iter_of_not_halted (k : Nat) (h : halted maxIter (ST k) = false) :
     (ST k).iter = k := by
-  have := loop_iter_of_not_halted mv resid prec (dot b (prec b)) TOL rc maxIter k _ h
-  rw [show (init resid prec b x0).iter = 0 from rfl, Nat.zero_add] at this
+  have := loop_iter_of_not_halted mv resid prec (pcgScale prec b bigB) TOL rc maxIter k _ h
+  rw [show (init resid prec b sqrtB bigB tol x0).iter = 0 from rfl, Nat.zero_add] at this
   exact this
 
 /-- the loop has not exited at any index below `out.iter` -/
@@ -206,7 +211,7 @@ theorem stateAt_not_halted (k : Nat) (hk : k < (OUT).iter) : halted maxIter (ST 
 
 /-- below `out.iter`, consecutive states are related by exactly one `step` -/
 theorem stateAt_succ (k : Nat) (hk : k < (OUT).iter) :
-    ST (k + 1) = step mv resid prec (dot b (prec b)) TOL rc (ST k) :=
+    ST (k + 1) = step mv resid prec (pcgScale prec b bigB) TOL rc (ST k) :=
   stateAt_succ_of_not_halted mv resid prec b sqrtB bigB tol rc maxIter x0 k
     (stateAt_not_halted mv resid prec b sqrtB bigB tol rc maxIter x0 k hk)
 
@@ -228,7 +233,7 @@ theorem stateAt_out_iter : ST (OUT).iter = OUT := by
       have hle' : (OUT).iter + 1 ≤ maxIter := by rw [hi] at hlt; omega
       obtain ⟨d, hd⟩ := Nat.exists_eq_add_of_le hle'
       have e : OUT = ST ((OUT).iter + 1 + d) := by rw [← hd]; rfl
-      have := loop_iter_ge mv resid prec (dot b (prec b)) TOL rc maxIter d
+      have := loop_iter_ge mv resid prec (pcgScale prec b bigB) TOL rc maxIter d
         (ST ((OUT).iter + 1))
       rw [← stateAt_add, ← e] at this
       exact this
@@ -256,9 +261,9 @@ theorem iterates_getElem (k : Nat)
 
 /-- history = reports attached to the states after `0, 1, …, out.iter` trips (no hypotheses) -/
 theorem pcg_res_eq :
-    (OUT).res = (List.range ((OUT).iter + 1)).map fun k => rhoSt prec (dot b (prec b)) (ST k) := by
-  have h := loop_res_eq mv resid prec (dot b (prec b)) TOL rc maxIter maxIter
-    (init resid prec b x0)
+    (OUT).res = (List.range ((OUT).iter + 1)).map fun k => rhoSt prec (pcgScale prec b bigB) (ST k) := by
+  have h := loop_res_eq mv resid prec (pcgScale prec b bigB) TOL rc maxIter maxIter
+    (init resid prec b sqrtB bigB tol x0)
   rw [← pcg_eq] at h
   rw [h, List.range_succ_eq_map, List.map_cons, List.map_map]
   rfl
@@ -269,18 +274,17 @@ theorem pcg_res_length : (OUT).res.length = (OUT).iter + 1 := by
 
 /-- the last reported entry is the one of the returned state -/
 theorem pcg_res_last (h : (OUT).iter < (OUT).res.length) :
-    (OUT).res[(OUT).iter] = dot (OUT).r (prec (OUT).r) / dot b (prec b) := by
+    (OUT).res[(OUT).iter] = dot (OUT).r (prec (OUT).r) / pcgScale prec b bigB := by
   have e := pcg_res_eq mv resid prec b sqrtB bigB tol rc maxIter x0
   rw [List.getElem_of_eq e h, List.getElem_map, List.getElem_range, stateAt_out_iter]
   rfl
 
 /-! ### 2. residual invariant along the run -/
 
-omit [LT K] [DecidableLT K] in
 theorem init_inv {n : Nat} {mv : List K → List K} {resid : List K → List K} {b : List K}
     (L : LinSys n mv resid b) (prec : List K → List K)
     (hprec : ∀ v, v.length = n → (prec v).length = n) (x0 : List K) (hx0 : x0.length = n) :
-    PInv resid n (init resid prec b x0) :=
+    PInv resid n (init resid prec b sqrtB bigB tol x0) :=
   ⟨Inv.of_resid L hx0, hprec _ (L.length_resid hx0)⟩
 
 variable {mv resid prec b}
@@ -288,7 +292,7 @@ variable {mv resid prec b}
 theorem stateAt_inv {n : Nat} (L : LinSys n mv resid b)
     (hprec : ∀ v, v.length = n → (prec v).length = n) (hx0 : x0.length = n) (k : Nat) :
     PInv resid n (ST k) :=
-  loop_inv L prec hprec _ _ _ _ _ _ (init_inv L prec hprec x0 hx0)
+  loop_inv L prec hprec _ _ _ _ _ _ (init_inv sqrtB bigB tol L prec hprec x0 hx0)
 
 /-- the stored residual of every intermediate state is the true residual of its iterate -/
 theorem stateAt_residual_true {n : Nat} (L : LinSys n mv resid b)
@@ -311,7 +315,7 @@ theorem pcg_residual_true {n : Nat} (L : LinSys n mv resid b)
 theorem pcg_reported_true {n : Nat} (L : LinSys n mv resid b)
     (hprec : ∀ v, v.length = n → (prec v).length = n) (hx0 : x0.length = n) :
     (OUT).res = (iterates mv resid prec b sqrtB bigB tol rc maxIter x0).map
-      fun x => dot (resid x) (prec (resid x)) / dot b (prec b) := by
+      fun x => dot (resid x) (prec (resid x)) / pcgScale prec b bigB := by
   rw [pcg_res_eq, iterates, List.map_map]
   apply List.map_congr_left
   intro k _
@@ -322,14 +326,14 @@ theorem pcg_reported_true {n : Nat} (L : LinSys n mv resid b)
 theorem pcg_reported_true_get {n : Nat} (L : LinSys n mv resid b)
     (hprec : ∀ v, v.length = n → (prec v).length = n) (hx0 : x0.length = n) (k : Nat)
     (hk : k < (OUT).res.length) :
-    (OUT).res[k] = trueRho resid prec b (XAT k) := by
+    (OUT).res[k] = trueRho resid prec b bigB (XAT k) := by
   have e := pcg_reported_true sqrtB bigB tol rc maxIter x0 L hprec hx0
   rw [List.getElem_of_eq e hk, List.getElem_map, iterates_getElem]
   rfl
 
 /-- the first entry is the scaled preconditioned residual norm of the initial guess -/
 theorem pcg_reported_first (h : 0 < (OUT).res.length) :
-    (OUT).res[0] = trueRho resid prec b x0 := by
+    (OUT).res[0] = trueRho resid prec b bigB x0 := by
   have e := pcg_res_eq mv resid prec b sqrtB bigB tol rc maxIter x0
   rw [List.getElem_of_eq e h, List.getElem_map, List.getElem_range]
   rfl
@@ -339,9 +343,9 @@ theorem pcg_reported_first (h : 0 < (OUT).res.length) :
 variable (mv resid prec b)
 
 /-- if the flag `stopped` is set the stored residual met the break test -/
-theorem pcg_stopped_lt (h : (OUT).stopped = true) : dot (OUT).r (prec (OUT).r) < TOL := by
+theorem pcg_stopped_lt (h : (OUT).stopped = true) : MetTol TOL (dot (OUT).r (prec (OUT).r)) := by
   rw [pcg_eq] at h ⊢
-  exact loop_stopOk _ _ _ _ _ _ _ _ _ (by intro h'; simp [init] at h') h
+  exact loop_stopMet _ _ _ _ _ _ _ _ _ (by intro h'; right; simpa [init] using h') h
 
 /-- the loop ends by `break` or at the limit -/
 theorem pcg_halted : halted maxIter OUT = true := by
@@ -351,9 +355,9 @@ theorem pcg_halted : halted maxIter OUT = true := by
     `break`, and the test `next < tol'` held for `next = ⟨r, prec r⟩` of the returned residual;
     the last reported entry is that `next / ⟨b, prec b⟩` -/
 theorem pcg_stops (hlt : (OUT).iter < maxIter) :
-    (OUT).stopped = true ∧ dot (OUT).r (prec (OUT).r) < TOL ∧
+    (OUT).stopped = true ∧ MetTol TOL (dot (OUT).r (prec (OUT).r)) ∧
       (OUT).res[(OUT).iter]'(by rw [pcg_res_length]; omega) =
-        dot (OUT).r (prec (OUT).r) / dot b (prec b) := by
+        dot (OUT).r (prec (OUT).r) / pcgScale prec b bigB := by
   have hs : (OUT).stopped = true := by
     rcases (halted_iff _ _).1 (pcg_halted mv resid prec b sqrtB bigB tol rc maxIter x0) with h | h
     · exact h
@@ -366,7 +370,7 @@ variable {mv resid prec b}
 theorem pcg_stops_true {n : Nat} (L : LinSys n mv resid b)
     (hprec : ∀ v, v.length = n → (prec v).length = n) (hx0 : x0.length = n)
     (hlt : (OUT).iter < maxIter) :
-    dot (resid (OUT).x) (prec (resid (OUT).x)) < TOL := by
+    MetTol TOL (dot (resid (OUT).x) (prec (resid (OUT).x))) := by
   rw [← pcg_residual_true sqrtB bigB tol rc maxIter x0 L hprec hx0]
   exact (pcg_stops mv resid prec b sqrtB bigB tol rc maxIter x0 hlt).2.1
 
@@ -443,9 +447,9 @@ theorem pcg_period_irrelevant {n : Nat} (L : LinSys n mv resid b)
       (pcg mv resid prec b sqrtB bigB tol rc' maxIter x0).r =
         resid (pcg mv resid prec b sqrtB bigB tol rc' maxIter x0).x) ∧
     ((pcg mv resid prec b sqrtB bigB tol rc maxIter x0).res =
-        (iterates mv resid prec b sqrtB bigB tol rc maxIter x0).map (trueRho resid prec b) ∧
+        (iterates mv resid prec b sqrtB bigB tol rc maxIter x0).map (trueRho resid prec b bigB) ∧
       (pcg mv resid prec b sqrtB bigB tol rc' maxIter x0).res =
-        (iterates mv resid prec b sqrtB bigB tol rc' maxIter x0).map (trueRho resid prec b)) :=
+        (iterates mv resid prec b sqrtB bigB tol rc' maxIter x0).map (trueRho resid prec b bigB)) :=
   ⟨⟨pcg_residual_true sqrtB bigB tol rc maxIter x0 L hprec hx0,
     pcg_residual_true sqrtB bigB tol rc' maxIter x0 L hprec hx0⟩,
    ⟨pcg_reported_true sqrtB bigB tol rc maxIter x0 L hprec hx0,
@@ -493,7 +497,7 @@ theorem pcg_prefix_iter (m M : Nat) (hm : m ≤ M) :
   | false =>
     have hi' := stateAt_iter_of_not_halted mv resid prec b sqrtB bigB tol rc M x0 m h
     obtain ⟨d, hd⟩ := Nat.exists_eq_add_of_le hm
-    have hge := loop_iter_ge mv resid prec (dot b (prec b)) (pcgTol sqrtB bigB tol) rc M d
+    have hge := loop_iter_ge mv resid prec (pcgScale prec b bigB) (pcgTol sqrtB bigB tol) rc M d
       (stateAt mv resid prec b sqrtB bigB tol rc M x0 m)
     rw [← stateAt_add, ← hd, stateAt_maxIter] at hge
     omega
@@ -562,59 +566,67 @@ theorem jac2_length (v : List Rat) (h : v.length = 2) : (jac2 v).length = 2 := b
 -- `⟨b, M⁻¹ b⟩ = 1/2`; `sqrtB`, `bigB` only enter the tolerance (here `tol = 0`: never `break`)
 example : dot b2 (jac2 b2) = 1/2 := by decide +kernel
 -- period 8 (the code): converges in two steps; the history has `iter + 1` entries
-example : (pcg (matMv A2) resid2 jac2 b2 1 false 0 8 2 [0, 0]).res = [1, 1/4, 0] := by
+example : (pcg (matMv A2) resid2 jac2 b2 1 true 0 8 2 [0, 0]).res = [1, 1/4, 0] := by
   decide +kernel
-example : (pcg (matMv A2) resid2 jac2 b2 1 false 0 8 2 [0, 0]).x = [2/3, 1/3] := by decide +kernel
-example : (pcg (matMv A2) resid2 jac2 b2 1 false 0 8 2 [0, 0]).iter = 2 := by decide +kernel
+example : (pcg (matMv A2) resid2 jac2 b2 1 true 0 8 2 [0, 0]).x = [2/3, 1/3] := by decide +kernel
+example : (pcg (matMv A2) resid2 jac2 b2 1 true 0 8 2 [0, 0]).iter = 2 := by decide +kernel
 -- the first two reported entries are the true `⟨b − A x_k, M⁻¹(b − A x_k)⟩ / ⟨b, M⁻¹ b⟩`
-example : (iterates (matMv A2) resid2 jac2 b2 1 false 0 8 2 [0, 0]) =
+example : (iterates (matMv A2) resid2 jac2 b2 1 true 0 8 2 [0, 0]) =
     [[0, 0], [1/2, 0], [2/3, 1/3]] := by decide +kernel
-example : ((iterates (matMv A2) resid2 jac2 b2 1 false 0 8 2 [0, 0]).map
+example : ((iterates (matMv A2) resid2 jac2 b2 1 true 0 8 2 [0, 0]).map
     fun x => dot (resid2 x) (jac2 (resid2 x)) / dot b2 (jac2 b2)) = [1, 1/4, 0] := by
   decide +kernel
 -- the invariant `r = b − A x` after each step, for periods 8, 0, 1 and 2
-example : ∀ k ∈ [0, 1, 2], (stateAt (matMv A2) resid2 jac2 b2 1 false 0 8 2 [0, 0] k).r =
-    resid2 (xAt (matMv A2) resid2 jac2 b2 1 false 0 8 2 [0, 0] k) := by decide +kernel
+example : ∀ k ∈ [0, 1, 2], (stateAt (matMv A2) resid2 jac2 b2 1 true 0 8 2 [0, 0] k).r =
+    resid2 (xAt (matMv A2) resid2 jac2 b2 1 true 0 8 2 [0, 0] k) := by decide +kernel
 example : ∀ rc ∈ [0, 1, 2], ∀ k ∈ [0, 1, 2, 3],
-    (stateAt (matMv A2) resid2 jac2 b2 1 false 0 rc 3 [0, 0] k).r =
-      resid2 (xAt (matMv A2) resid2 jac2 b2 1 false 0 rc 3 [0, 0] k) := by decide +kernel
+    (stateAt (matMv A2) resid2 jac2 b2 1 true 0 rc 3 [0, 0] k).r =
+      resid2 (xAt (matMv A2) resid2 jac2 b2 1 true 0 rc 3 [0, 0] k) := by decide +kernel
 -- recompute every iteration vs never: the same first entries (index 0 and 1) …
-example : (pcg (matMv A2) resid2 jac2 b2 1 false 0 1 2 [0, 0]).res.take 2 =
-    (pcg (matMv A2) resid2 jac2 b2 1 false 0 0 2 [0, 0]).res.take 2 := by decide +kernel
-example : (pcg (matMv A2) resid2 jac2 b2 1 false 0 1 2 [0, 0]).res.take 2 = [1, 1/4] := by
+example : (pcg (matMv A2) resid2 jac2 b2 1 true 0 1 2 [0, 0]).res.take 2 =
+    (pcg (matMv A2) resid2 jac2 b2 1 true 0 0 2 [0, 0]).res.take 2 := by decide +kernel
+example : (pcg (matMv A2) resid2 jac2 b2 1 true 0 1 2 [0, 0]).res.take 2 = [1, 1/4] := by
   decide +kernel
 -- … but not the same run: a "full" iteration also resets the direction `p := z`, so period 1 is
 -- preconditioned steepest descent (history `[1, 1/4, 1/16]`, not `[1, 1/4, 0]`); each history is
 -- nevertheless the true one of its own iterates
-example : (pcg (matMv A2) resid2 jac2 b2 1 false 0 1 2 [0, 0]).res = [1, 1/4, 1/16] := by
+example : (pcg (matMv A2) resid2 jac2 b2 1 true 0 1 2 [0, 0]).res = [1, 1/4, 1/16] := by
   decide +kernel
-example : ((iterates (matMv A2) resid2 jac2 b2 1 false 0 1 2 [0, 0]).map
+example : ((iterates (matMv A2) resid2 jac2 b2 1 true 0 1 2 [0, 0]).map
     fun x => dot (resid2 x) (jac2 (resid2 x)) / dot b2 (jac2 b2)) = [1, 1/4, 1/16] := by
   decide +kernel
 -- periods 0 and 8 agree below 8 iterations (`pcg_period_zero_eight`), concretely
-example : (pcg (matMv A2) resid2 jac2 b2 1 false 0 0 2 [0, 0]).res =
-    (pcg (matMv A2) resid2 jac2 b2 1 false 0 8 2 [0, 0]).res := by decide +kernel
--- tolerance: `tol' = tol·sqrtB = (1/20)·3`; `next = 1/8 < 3/20` at iteration 1: `break`
-example : (pcg (matMv A2) resid2 jac2 b2 3 true (1/20) 8 5 [0, 0]).iter = 1 := by decide +kernel
-example : (pcg (matMv A2) resid2 jac2 b2 3 true (1/20) 8 5 [0, 0]).stopped = true := by
+example : (pcg (matMv A2) resid2 jac2 b2 1 true 0 0 2 [0, 0]).res =
+    (pcg (matMv A2) resid2 jac2 b2 1 true 0 8 2 [0, 0]).res := by decide +kernel
+-- tolerance: `tol' = tol·sqrtB = 1/2`, threshold `tol'² = 1/4`; `next = 1/8 < 1/4` at iteration 1: `break`
+example : (pcg (matMv A2) resid2 jac2 b2 1 true (1/2) 8 5 [0, 0]).iter = 1 := by decide +kernel
+example : (pcg (matMv A2) resid2 jac2 b2 1 true (1/2) 8 5 [0, 0]).stopped = true := by
   decide +kernel
-example : (pcg (matMv A2) resid2 jac2 b2 3 true (1/20) 8 5 [0, 0]).res = [1, 1/4] := by
+example : (pcg (matMv A2) resid2 jac2 b2 1 true (1/2) 8 5 [0, 0]).res = [1, 1/4] := by
+  decide +kernel
+-- a start that is the solution meets every tolerance: no iteration, one reported entry, nothing divided by zero
+example : (pcg (matMv A2) resid2 jac2 b2 1 true (1/100) 8 5 [2/3, 1/3]).iter = 0 ∧
+    (pcg (matMv A2) resid2 jac2 b2 1 true (1/100) 8 5 [2/3, 1/3]).res = [0] ∧
+    (pcg (matMv A2) resid2 jac2 b2 1 true (1/100) 8 5 [2/3, 1/3]).x = [2/3, 1/3] := by decide +kernel
+-- zero right-hand side (`bigB = false`: absolute residuals, scale 1), start 0: the same
+example : (pcg (matMv A2) (fun x => axpy [0, 0] (matMv A2 x) (-1)) jac2 [0, 0] 0 false (1/100) 8 5 [0, 0]).res = [0] ∧
+    (pcg (matMv A2) (fun x => axpy [0, 0] (matMv A2 x) (-1)) jac2 [0, 0] 0 false (1/100) 8 5 [0, 0]).x = [0, 0] := by
   decide +kernel
 -- iteration limit 1: a prefix of the longer run
-example : (pcg (matMv A2) resid2 jac2 b2 1 false 0 8 1 [0, 0]).res = [1, 1/4] := by decide +kernel
-example : (pcg (matMv A2) resid2 jac2 b2 1 false 0 8 1 [0, 0]).x = [1/2, 0] := by decide +kernel
+example : (pcg (matMv A2) resid2 jac2 b2 1 true 0 8 1 [0, 0]).res = [1, 1/4] := by decide +kernel
+example : (pcg (matMv A2) resid2 jac2 b2 1 true 0 8 1 [0, 0]).x = [1/2, 0] := by decide +kernel
 
 -- the theorems instantiate on the concrete system
 example (rc maxIter : Nat) :
-    (pcg (matMv A2) resid2 jac2 b2 1 false 0 rc maxIter [0, 0]).r =
-      resid2 (pcg (matMv A2) resid2 jac2 b2 1 false 0 rc maxIter [0, 0]).x :=
-  pcg_residual_true 1 false 0 rc maxIter [0, 0] linSys2 jac2_length rfl
+    (pcg (matMv A2) resid2 jac2 b2 1 true 0 rc maxIter [0, 0]).r =
+      resid2 (pcg (matMv A2) resid2 jac2 b2 1 true 0 rc maxIter [0, 0]).x :=
+  pcg_residual_true 1 true 0 rc maxIter [0, 0] linSys2 jac2_length rfl
 
 example (rc maxIter : Nat) :
-    (pcg (matMv A2) resid2 jac2 b2 1 false 0 rc maxIter [0, 0]).res =
-      (iterates (matMv A2) resid2 jac2 b2 1 false 0 rc maxIter [0, 0]).map
+    (pcg (matMv A2) resid2 jac2 b2 1 true 0 rc maxIter [0, 0]).res =
+      (iterates (matMv A2) resid2 jac2 b2 1 true 0 rc maxIter [0, 0]).map
         fun x => dot (resid2 x) (jac2 (resid2 x)) / dot b2 (jac2 b2) :=
-  pcg_reported_true 1 false 0 rc maxIter [0, 0] linSys2 jac2_length rfl
+  pcg_reported_true 1 true 0 rc maxIter [0, 0] linSys2 jac2_length rfl
 
 end Examples
 
